@@ -150,16 +150,31 @@ Print Assumptions C06_header_roundtrip.
    carried out whatever the earlier ones returned (with what a failing call leaves behind) *)
 
 (* facts: read_conn hands the buffer's dimensions to the lexicon also when reading failed half-way, leaves the limits of a
-   user dictionary alone; read_lexicon clears `resolved`; compile validates unconditionally; in read_conn and read_lexicon the two kinds of data source
-   (a file path, bytes in memory) are one call each whose value reaches the same continuation, so that what follows -- the
-   update of the limits, the propagation of the error -- does not depend on the kind (build_unrecognised = []) *)
+   user dictionary alone; read_lexicon clears `resolved`; compile validates unconditionally (build_unrecognised = []) *)
 Fact C06_history_facts_ok :
   BuildGuards.conn_limits_follow_on_error = true /\ BuildGuards.conn_limits_fixed_for_user = true
   /\ BuildGuards.read_lexicon_clears_resolved = true /\ BuildGuards.build_unrecognised = [].
 Proof. repeat split; vm_compute; reflexivity. Qed.
 
-Lemma history_is_following : history = run_history gen_bfacts true true.
-Proof. unfold history. destruct C06_history_facts_ok as (-> & -> & _). reflexivity. Qed.
+(* the two routes of DictBuilder::read_conn / read_lexicon (a file path, bytes in memory): neither arm of read_conn returns or
+   propagates on its own when reading failed -- the dimensions are handed to the lexicon on success AND on failure whichever
+   route was taken, nothing of a failed call is kept by one route only --, and both routes of both calls end in the same
+   parser (ConnBuffer::read_file -> read, LexiconReader::read_file -> read_bytes, nothing else touching the reader) *)
+Fact C06_data_source_routes_agree :
+  BuildGuards.conn_file_route_returns_early = false /\ BuildGuards.conn_bytes_route_returns_early = false
+  /\ BuildGuards.read_routes_reach_same_parser = true.
+Proof. repeat split; vm_compute; reflexivity. Qed.
+
+Lemma history_is_following : history = run_history gen_bfacts true true false false.
+Proof.
+  unfold history. destruct C06_history_facts_ok as (-> & -> & _). destruct C06_data_source_routes_agree as (-> & -> & _). reflexivity.
+Qed.
+
+(* consequently the kind of data source of a call does not matter: every history gives what the same calls give with all
+   data handed over as bytes in memory, and the theorems below hold for both routes *)
+Theorem C06_history_source_irrelevant : forall ops st, history st ops = history st (map as_bytes ops).
+Proof. rewrite history_is_following. exact (history_source_irrelevant gen_bfacts _ _). Qed.
+Print Assumptions C06_history_source_irrelevant.
 
 (* C06_success_means_valid for every call history: whatever was called before, in whatever order and with whatever outcome,
    a compile that reports success once a matrix is known (a read_conn got past its header line, or the dictionary is a user
@@ -167,7 +182,7 @@ Proof. unfold history. destruct C06_history_facts_ok as (-> & -> & _). reflexivi
 Theorem C06_history_success_means_valid : forall ops st, Inv st -> 0 <= hs_nsys st ->
   (forall i r, nth_error (history st ops) i = Some r -> r <> Panic)
   /\ forall i d, nth_error (history st ops) i = Some (Ok (Some d)) ->
-       matrix_known (final_state gen_bfacts true true st (firstn i ops)) = true ->
+       matrix_known (final_state gen_bfacts true true false false st (firstn i ops)) = true ->
        dict_valid d = true /\ stores_in_range d = true.
 Proof. rewrite history_is_following. exact (history_success_means_valid gen_bfacts C06_generated_guards_ok). Qed.
 Print Assumptions C06_history_success_means_valid.
@@ -175,7 +190,7 @@ Print Assumptions C06_history_success_means_valid.
 (* ... and its index arrays are within the limit, however the rows were spread over read_lexicon calls *)
 Theorem C06_history_index_arrays_within_limit : forall ops st i d,
   nth_error (history st ops) i = Some (Ok (Some d)) -> index_lists_ok d = true.
-Proof. exact (history_index_ok gen_bfacts C06_generated_guards_ok _ _). Qed.
+Proof. exact (history_index_ok gen_bfacts C06_generated_guards_ok _ _ _ _). Qed.
 Print Assumptions C06_history_index_arrays_within_limit.
 
 (* the invariant holds for a fresh system-dictionary builder and for a user-dictionary builder on any loaded grammar *)
